@@ -235,6 +235,10 @@ def run(rep, tier):
         rep.call(c12.skip_arm, rep, prog, "C05.fallible-write")
         from . import c13
         rep.call(c13.step_count, rep, prog, "C05.step-count")
+        # component conversion: no write before both dimensions were compared (error => untouched;
+        # success => every row of the destination paired with a source row)
+        from . import c17 as _c17
+        rep.call(_c17.reject_rule, rep, prog, "C05.convert-reject")
         # bands of source and destination are paired by position: if two splitters distribute
         # the surplus rows differently, the zip of their rows stops early and rows stay unwritten
         from . import c14
